@@ -145,6 +145,15 @@ type stdMatrix struct {
 	zeroCol bool
 	zeroRow bool
 	bases   []stdBasis // all nonsingular m-subsets of columns (only if rank == m)
+	red     map[string]*reducedSys // rank-deficient A: the reduced system per right-hand side
+}
+
+// reducedSys is the full-row-rank system equivalent to [A|b] for one b.
+type reducedSys struct {
+	ok    bool // false: the equations are inconsistent
+	a     [][]rat
+	b     []rat
+	bases []stdBasis
 }
 
 func combos(n, k int, f func(idx []int)) {
@@ -163,7 +172,9 @@ func combos(n, k int, f func(idx []int)) {
 	rec(0, 0)
 }
 
-func newStdMatrix(m, n int, a []float64) *stdMatrix {
+// newStdMatrix prepares the exact data of A; the bases are enumerated unless
+// only rank / zero-column information is wanted (rankOnly).
+func newStdMatrix(m, n int, a []float64, rankOnly ...bool) *stdMatrix {
 	s := &stdMatrix{m: m, n: n}
 	s.a = make([][]rat, m)
 	for i := 0; i < m; i++ {
@@ -195,7 +206,7 @@ func newStdMatrix(m, n int, a []float64) *stdMatrix {
 		zero[i] = rzero()
 	}
 	_, s.rank, _, _ = ratSolve(s.a, zero)
-	if s.rank == m {
+	if s.rank == m && !(len(rankOnly) > 0 && rankOnly[0]) {
 		s.bases = enumBases(s.a, m, n)
 	}
 	return s
@@ -356,15 +367,40 @@ func (s *stdMatrix) solve(b, c []float64, wantBases bool) lpAnswer {
 		return ans
 	}
 	// Rank-deficient A: reduce [A|b] to an equivalent full-row-rank system first.
-	aug := make([][]rat, s.m)
-	for i := range aug {
-		aug[i] = append(append([]rat(nil), s.a[i]...), rb[i])
+	key := ""
+	for _, v := range rb {
+		key += v.RatString() + ","
 	}
-	red, ok := rowReduce(aug, s.n)
-	if !ok {
+	rs := s.red[key]
+	if rs == nil {
+		rs = &reducedSys{}
+		aug := make([][]rat, s.m)
+		for i := range aug {
+			aug[i] = append(append([]rat(nil), s.a[i]...), rb[i])
+		}
+		red, ok := rowReduce(aug, s.n)
+		rs.ok = ok
+		if ok {
+			r := len(red)
+			rs.a = make([][]rat, r)
+			rs.b = make([]rat, r)
+			for i := range red {
+				rs.a[i] = red[i][:s.n]
+				rs.b[i] = red[i][s.n]
+			}
+			if r > 0 {
+				rs.bases = enumBases(rs.a, r, s.n)
+			}
+		}
+		if s.red == nil {
+			s.red = map[string]*reducedSys{}
+		}
+		s.red[key] = rs
+	}
+	if !rs.ok {
 		return lpAnswer{class: lpInfeasible}
 	}
-	r := len(red)
+	r := len(rs.a)
 	if r == 0 {
 		// no constraint left: x >= 0 only
 		for _, cj := range rc {
@@ -374,13 +410,7 @@ func (s *stdMatrix) solve(b, c []float64, wantBases bool) lpAnswer {
 		}
 		return lpAnswer{class: lpOptimal, opt: rzero()}
 	}
-	a2 := make([][]rat, r)
-	b2 := make([]rat, r)
-	for i := range red {
-		a2[i] = red[i][:s.n]
-		b2[i] = red[i][s.n]
-	}
-	ans, _ := solveFullRank(a2, enumBases(a2, r, s.n), r, s.n, b2, rc, false)
+	ans, _ := solveFullRank(rs.a, rs.bases, r, s.n, rs.b, rc, false)
 	ans.feasible = nil
 	ans.precondOK = false
 	return ans
